@@ -135,13 +135,15 @@ impl CErr {
 pub struct ModernOpts {
     pub optimize: bool,
     pub frontend_opt: bool,
+    /// run the classic post-optimiser over the result (what `run -O` and the library entry do)
+    pub post_opt: bool,
     pub search: Vec<String>,
     pub filename: String,
 }
 
 impl Default for ModernOpts {
     fn default() -> Self {
-        ModernOpts { optimize: false, frontend_opt: false, search: vec![], filename: "*verif*".to_string() }
+        ModernOpts { optimize: false, frontend_opt: false, post_opt: false, search: vec![], filename: "*verif*".to_string() }
     }
 }
 
@@ -157,7 +159,17 @@ pub fn modern_compile(text: &str, dialect: AcceptedDialect, o: &ModernOpts) -> R
         let opts: Rc<dyn CompilerOpts> = Rc::new(DefaultCompilerOpts::new(&o.filename));
         let opts = opts.set_dialect(dialect.clone()).set_optimize(o.optimize).set_frontend_opt(o.frontend_opt).set_search_paths(&o.search);
         let mut syms = HashMap::new();
-        match compile_file(&mut a, runner, opts, &text, &mut syms) {
+        let compiled = compile_file(&mut a, runner.clone(), opts.clone(), &text, &mut syms).and_then(|s| {
+            if o.post_opt {
+                chialisp::compiler::optimize::maybe_finalize_program_via_classic_optimizer(&mut a, runner.clone(), opts.clone(), true, &s).map(|r| {
+                    let b: &SExp = std::borrow::Borrow::borrow(&r);
+                    b.clone()
+                })
+            } else {
+                Ok(s)
+            }
+        });
+        match compiled {
             Ok(s) => {
                 // convert under the dialect's integer mode, as every entry point does
                 let _g = NewStyleIntConversion::new(dialect.int_fix);
